@@ -98,6 +98,13 @@ def check_engine(rep, fb, ex, eq, callgraph):
     rep.minimum('R01.9', nk, 15, 'uses of state kind codes in ' + eng)
     if not masks:
         rep.ok('R01.9', eng, '%d uses of kind codes, all compared (==, !=, switch), never masked' % nk)
+    # R01.13 a descendant's transition pre-empts its ancestors' whatever it exits (large engine: lazily computed conflicts)
+    if f.rec.endswith('LargeMicroStep'):
+        from .C03 import large_conflict_terms
+        lt, lsite = large_conflict_terms(fb)
+        anc = sorted(t for t in lt if t.startswith('source-ancestry'))
+        rep.check(len(anc) == 2, 'R01.13', eng + '|ancestor pre-emption', locstr(lsite), 'a transition whose source is an ancestor or descendant of an already selected transition\'s source is %s (terms: %s); a targetless transition has an empty exit set, so exit-set overlap alone lets the ancestor\'s transition fire as well' % (
+            'recorded as conflicting' if len(anc) == 2 else 'NOT recorded as conflicting', sorted(lt)))
     # R01.12 history records are independent
     from .C05 import history_features
     hf = history_features(fb, fb.fn(f.rec + '::getHistoryCompletion'))
@@ -132,6 +139,7 @@ def run(rep, tier):
     rep.rule('R01.6', 'bitset typestate: no dynamic_bitset is indexed after clear() shrank it to zero bits')
     rep.rule('R01.8', 'interval closedness agreement: overlap and membership tests on exit intervals use non-strict comparisons, like the place that applies the interval')
     rep.rule('R01.9', 'state kind codes are an enumeration: they are compared, never bit-masked')
+    rep.rule('R01.13', 'optimal transition set: a transition selected in a descendant pre-empts the transitions of its ancestors even when it exits nothing (targetless); the selection does not rely on the position of states in the post-fix ordered view')
     rep.rule('R01.12', 'history records are independent: either every history has its own record or the completions of distinct histories are disjoint (a deep history must not rewrite the states remembered for a history nested below it)')
     rep.rule('R01.11', 'transition domain: the source is the domain only for an internal transition with compound source whose targets ALL are descendants; otherwise the NEAREST ancestor that is compound and contains ALL targets (quantifier-shape analysis, flag idioms included)')
     rep.rule('R01.10', 'data-model independence: the engine calls data models only through MicroStepCallbacks')
